@@ -240,50 +240,58 @@ def _cells(arr):
     return [[float(x.real), float(x.imag)] for x in arr]
 
 
-# seconds per real execution (soft: SIGALRM -> recorded as TimeoutError); python execution of a case
-# takes milliseconds to a second, a compiled one is dominated by 1-10 s of JIT compilation
-CASE_TIME_LIMIT = {"numpy": 20.0, "nojit": 20.0, "jit": 90.0}
-CASE_HARD_LIMIT = 240.0     # watchdog: a worker stuck inside compiled code is terminated
+# CPU seconds (not wall time: the check must not depend on the load of the machine) per real execution;
+# python execution of a case takes milliseconds to a second, a compiled one 1-10 s of JIT compilation
+CASE_CPU_LIMIT = {"numpy": 30.0, "nojit": 30.0, "jit": 150.0}
+CASE_HARD_CPU_LIMIT = 400.0     # watchdog: a worker stuck inside compiled code is terminated
 
 
 class _Deadline:
-    """time limit for one execution of the real code.  A run that does not come back (e.g. a
+    """CPU-time limit for one execution of the real code.  A run that does not come back (e.g. a
     controller loop that never reaches t_end after a stepper returned a wrong time) is reported as a
     TimeoutError of that case instead of stalling the check."""
 
-    def __init__(self, soft, hard=CASE_HARD_LIMIT):
+    def __init__(self, soft, hard=CASE_HARD_CPU_LIMIT):
         self.soft, self.hard = soft, hard
 
     def __enter__(self):
         import signal
         import threading
+        import time
 
         def on_alarm(_sig, _frm):
-            raise TimeoutError(f"no result within {self.soft:.0f} s")
+            raise TimeoutError(f"no result within {self.soft:.0f} s of CPU time")
 
         self.use_signal = threading.current_thread() is threading.main_thread()
         if self.use_signal:
-            self.old = signal.signal(signal.SIGALRM, on_alarm)
-            signal.setitimer(signal.ITIMER_REAL, self.soft)
-        self.watchdog = threading.Timer(self.hard, lambda: os._exit(3))
-        self.watchdog.daemon = True
+            self.old = signal.signal(signal.SIGPROF, on_alarm)
+            signal.setitimer(signal.ITIMER_PROF, self.soft)
+        self.done = threading.Event()
+        start = time.process_time()
+
+        def watch():
+            while not self.done.wait(5.0):
+                if time.process_time() - start > self.hard:
+                    os._exit(3)
+
+        self.watchdog = threading.Thread(target=watch, daemon=True)
         self.watchdog.start()
         return self
 
     def __exit__(self, *exc):
         import signal
 
-        self.watchdog.cancel()
+        self.done.set()
         if self.use_signal:
-            signal.setitimer(signal.ITIMER_REAL, 0)
-            signal.signal(signal.SIGALRM, self.old)
+            signal.setitimer(signal.ITIMER_PROF, 0)
+            signal.signal(signal.SIGPROF, self.old)
         return False
 
 
 def exec_case(task):
     """run one case on the real code (with a time limit); returns a plain dict"""
     try:
-        with _Deadline(CASE_TIME_LIMIT.get(task["mode"], 90.0)):
+        with _Deadline(CASE_CPU_LIMIT.get(task["mode"], 150.0)):
             return _exec_case(task)
     except TimeoutError as e:
         return {"mode": task["mode"], "segments": [], "error": {"type": "TimeoutError", "msg": str(e), "segment": 0},
@@ -941,15 +949,19 @@ def monitor_agreement(ctx, case, runs, leg="monitor"):
                 scale = max(scale, _scale(case, []))
             dev = max(abs(complex(*u) - complex(*v)) for u, v in zip(x["state"], y["state"]))
             if case["kind"] == "adaptive":
-                tol = case["tol"] * max(1, x["steps"]) * 1e-3 + 1e-9 * scale
+                # the property: "within the tolerance for adaptive steps"
+                tol = case["tol"] * max(1, x["steps"], y["steps"]) + 1e-9 * scale
+                strict = case["tol"] * max(1, x["steps"]) * 1e-3 + 1e-9 * scale
+                ctx.hist("adaptive numpy-vs-numba", "same to round-off" if (dev <= strict and x["steps"] == y["steps"])
+                         else "differ beyond round-off")
             elif case["kind"] == "scipy":
                 tol = 1e-9 * scale
             else:
                 tol = 1e-12 * scale * (1 + x["steps"] / 16)
             bad = None
-            if x["steps"] != y["steps"] and case["kind"] != "scipy":
+            if x["steps"] != y["steps"] and case["kind"] == "fixed":
                 bad = f"steps {y['steps']} vs {x['steps']}"
-            elif abs(x["t"] - y["t"]) > 1e-12 * max(1.0, abs(x["t"])):
+            elif abs(x["t"] - y["t"]) > 1e-12 * max(1.0, abs(x["t"])) + (DT_MIN * 1.000001 if case["kind"] == "adaptive" else 0):
                 bad = f"time {y['t']!r} vs {x['t']!r}"
             elif not dev <= tol:
                 bad = f"state deviates by {dev:.3e} (tolerance {tol:.3e})"
@@ -1215,8 +1227,8 @@ def generate(ctx):
     n_fixed = ctx.budget(900, 9000)
     n_adapt = ctx.budget(240, 2400)
     n_scipy = ctx.budget(40, 300)
-    n_jit_fixed = ctx.budget(66, 1300)
-    n_jit_adapt = ctx.budget(30, 500)
+    n_jit_fixed = ctx.budget(66, 700)
+    n_jit_adapt = ctx.budget(30, 260)
     n_jit_scipy = ctx.budget(4, 40)
     tasks = []
     for i in range(n_fixed):
@@ -1263,7 +1275,8 @@ def execute(ctx, tasks):
     wd1 = os.path.join(ctx.workdir, "pool_nojit")
     wd2 = os.path.join(ctx.workdir, "pool_jit")
 
-    batch = _ParallelBatch(ctx.workdir, 3)
+    n_py, n_jit, n_lean = ctx.budget((4, 9, 3), (5, 9, 2))
+    batch = _ParallelBatch(ctx.workdir, n_lean)
     index = {}
     for t in tasks:
         c = t["case"]
@@ -1287,9 +1300,9 @@ def execute(ctx, tasks):
 
     with ThreadPoolExecutor(3) as ex:
         f1 = ex.submit(timed, "python_execution_pool", run_many, "harness.c06", "worker",
-                       _interleave(nojit_tasks, 4), dict(base_env, NUMBA_DISABLE_JIT="1"), 4, wd1)
-        f2 = ex.submit(timed, "jit_pool", run_many, "harness.c06", "worker", _interleave(jit_tasks, 9),
-                       base_env, 9, wd2)
+                       _interleave(nojit_tasks, n_py), dict(base_env, NUMBA_DISABLE_JIT="1"), n_py, wd1)
+        f2 = ex.submit(timed, "jit_pool", run_many, "harness.c06", "worker", _interleave(jit_tasks, n_jit),
+                       base_env, n_jit, wd2)
         f3 = ex.submit(timed, "lean_model", batch.run)
         r1, r2 = f1.result(), f2.result()
         try:
@@ -1384,10 +1397,17 @@ def evaluate(ctx, tasks, runs, answers, index):
                             bad, its = parse_fixed_calls(case, case["segments"], ss, rr[m]["calls"],
                                                          [s["ncalls"] for s in rr[m]["segments"]])
                             mits = [k for s in msegs for k in s["iters"]]
-                            if not bad and its != mits:
+                            umax = max([abs(complex(*u)) for u in case["u0"]]
+                                       + [abs(complex(*u)) for s in msegs for u in s["state"]])
+                            if not bad and its != mits and case["maxerror"] <= 1e5 * 2.2e-16 * umax:
+                                # the absolute threshold is within 1e5 ulp of the state: the float differences of
+                                # successive iterates carry rounding noise that decides near-ties differently
+                                ctx.hist("implicit-iteration-count", "differs; threshold within float resolution of the state")
+                            elif not bad and its != mits:
                                 ctx.disagree("correspondence:" + leg, {"case": case, "mode": m}, {"iterations": mits},
                                              {"iterations": its}, "iteration counts of the fixed-point loop")
                             elif not bad:
+                                ctx.hist("implicit-iteration-count", "equal to the model's")
                                 ctx.hist("implicit-iterations", min(its + [99]) if its else "-")
                 aux = {tag: {"case": a["case"], "run": rr.get(f"{m}/{tag}")} for tag, a in t["aux"].items()
                        if f"{m}/{tag}" in rr}
